@@ -106,5 +106,10 @@ theorem cur_step {cfg : Cfg} {s s' : St} {a : Act} (hs : step cfg s a = some s')
     split at hs
     · cases hs; exact Or.inl rfl
     · cases hs
+  | findErrRelease i fs =>
+    simp only [step] at hs
+    split at hs
+    · cases hs; exact Or.inl rfl
+    · cases hs
 
 end LinVerif.Lemmas.C02
